@@ -22,7 +22,25 @@ def work(plan):
     ctx0 = Z.build(plan, order=orders[0])
     em0 = emit(ctx0)
     if not em0.text:
-        rec['build_error'] = repr(em0.err)
+        if 'ambiguous' not in plan.features:
+            # a topology of the zoo that the canonical order cannot build: if another order does build it, that is an order dependence
+            for order in orders[1:]:
+                em = emit(Z.build(plan, order=order))
+                if em.text:
+                    rec['obs'].append({'kind': 'refused-alike', 'what': 'the canonical order is refused (%s) but a permuted order builds' % type(em0.err).__name__,
+                                       'verdict': 'sat', 'order': order, 'order_keys': order_keys(plan, order),
+                                       'structural': {'error': 'canonical build gives %r' % (em0.err,)}})
+                    return rec
+            rec['build_error'] = repr(em0.err)
+            return rec
+        # an ambiguous topology: refused - then it has to be refused alike in every declaration order (an order that builds has picked one reading)
+        for order in orders[1:]:
+            rec['orders'] += 1
+            em = emit(Z.build(plan, order=order))
+            same = (not em.text) and type(em.err) is type(em0.err)
+            rec['obs'].append({'kind': 'refused-alike', 'what': 'refused in the canonical order (%s): refused alike in the permuted order' % type(em0.err).__name__,
+                               'verdict': 'unsat' if same else 'sat', 'order': order, 'order_keys': order_keys(plan, order),
+                               'structural': None if same else {'error': 'permuted build gives %r, canonical %r' % (em.err, em0.err)}})
         return rec
     params = param_names(plan, ctx0, em0)
     rec['params'] = sorted(params)
@@ -57,6 +75,8 @@ order = %(order)r
 canon = emit(Z.build(plan))
 perm = emit(Z.build(plan, order=order))
 print('permuted declaration order:', [plan.decls[i].key for i in order])
+if not canon.text:
+    print('canonical build refused with', repr(canon.err), '; permuted build:', repr(perm.err) if not perm.text else 'builds'); sys.exit(0 if (not perm.text and type(perm.err) is type(canon.err)) else 1)
 if not perm.text:
     print('permuted build raises', repr(perm.err)); sys.exit(1)
 A = dict(list(canon.parser.Endogenous) + list(canon.parser.Decoration)); B = dict(list(perm.parser.Endogenous) + list(perm.parser.Decoration))
@@ -86,7 +106,7 @@ def run(tier, seed):
                sfc_models.sector.Market._SearchSupplier, sd.FixedMarginBusiness.__init__, sd.FixedMarginBusiness._GenerateEquations,
                sd.TaxFlow._GenerateEquations, sd.MoneyMarket._GenerateEquations, sd.DepositMarket._GenerateEquations,
                sd.CentralBank._GenerateEquations)
-    plans = Z.zoo('quick') if tier == 'quick' else Z.zoo('quick') + Z.zoo_product()[::7]
+    plans = (Z.zoo('quick') if tier == 'quick' else Z.zoo('quick') + Z.zoo_product()[::7]) + Z.ambiguous()
     chk.bounds = {'topologies': len(plans), 'orders per topology': 'canonical, countries-first, reverse-topological, markets-first, flows-first, '
                   'reversed-markets-first, markets-last and every adjacent transposition (quick); + all permutations for <=7 sectors / rotations '
                   'and strided interleavings beyond (thorough)', 'numeric domain': 'all reals (every variable free)'}
